@@ -9,6 +9,8 @@ from checks.c08 import _dict_equal
 from checks.c15 import job_int_scalar_codec, job_ed_scalar_codec          # scalar width/endianness on the real groups
 
 PID = "C10"
+TECHNIQUE = 'symbolic comparison of the real serialize() dictionary with an independent encoder of the released format, and of from_serialized(reference state) with the original session; real scalar codecs; JSON renderings as ground job'
+LEVEL_NOTE = 'JSON text handling is the real json module (ground runs only)'
 EXPLANATION = (
     "An independent encoder of the released state format is written in the harness from the property text: keys "
     "hashed_params, side, password, xy_scalar and idA+idB (or idS); every value lower-case hex of the raw bytes; the "
